@@ -500,7 +500,7 @@ func (f *Frame) laneLoop(L *Loop, ls *laneSpec) bool {
 				os.WriteFile(fmt.Sprintf("/tmp/gocv_debug/r%d_%s.smt2", round, sanitize(o.Name)), []byte(o.Query(true)), 0o644)
 			}
 		}
-		solveAll(check, 8, 6)
+		solveAll(check, 8*timeScale, 6)
 		if os.Getenv("GOCV_DEBUG") != "" {
 			for _, o := range check {
 				if o.Secs > 0.5 {
